@@ -122,6 +122,7 @@ def main(argv=None):
     ap.add_argument('--jobs', type=int)
     ap.add_argument('--only')
     ap.add_argument('--verbose', '-v', action='store_true')
+    ap.add_argument('--write-baseline', action='store_true', help='record the clauses discharged on the (unchanged) tree in baseline/<prop>.json')
     args = ap.parse_args(argv)
     seed = int(os.environ.get('VERIF_SEED', '0') or 0)
     os.chdir(HERE)
@@ -136,7 +137,7 @@ def main(argv=None):
         print('CHECKER-ERROR property=%s %s: %s' % (args.prop, type(e).__name__, e))
         traceback.print_exc()
         return 3
-    return report.finish(args.prop, args.tier, seed, units, results, time.time() - t0, verbose=args.verbose, partial=bool(args.only))
+    return report.finish(args.prop, args.tier, seed, units, results, time.time() - t0, verbose=args.verbose, partial=bool(args.only), baseline_out=args.write_baseline)
 
 
 if __name__ == '__main__':
